@@ -19,7 +19,23 @@
     rotate   the head of the first located region becomes position 0;
     extract  the emitted regions are the first occurrences of the located ones (or, with `-v`,
              exactly the maximal unlocated stretches, by C09), filtered by length.
-  Feature-level statements cite C02, C03, C04 for one step of a loop.
+  Feature-level statements ("features in every output denote the residues they denoted in the
+  input"), for the whole loops (helper lemmas in Gts/Lemmas/CliFeatures.lean):
+    delete   every feature kept in table order (`delete_feats`); its location denotes its former
+             residues re-mapped by `Cli.unionDelMap` of the minimised located regions
+             (`delete_features_partial`, `=` under `Nodup`), which is where the residues went
+             (`delete_residue_at`), hence it READS the same residues (`…_residues_partial`);
+             `-e`: exactly the features failing `Cli.eraseKeep` are dropped, never one that keeps
+             a residue, always a plain range inside one located stretch;
+    insert   table = host features + one guest copy per region (`insert_feats_perm`); host
+             features re-mapped by `Cli.multiInsMap` (`insert_host_features_partial`), guest
+             copies offset by their position in the OUTPUT (`guest_den_partial`,
+             `guest_copy_bytes`); infix: the same outside the guest copies;
+    rotate / linear split   C04 / C03 lifted to the loops (`rotate_features_partial`,
+             `split_features_partial`: the windows partition the record and every residue of a
+             feature is denoted by the feature's piece in exactly one window).
+  All under the K2 guards of the single steps folded along the loop (`Cli.delAbs`, `Cli.insAbs`);
+  the unguarded statements are refuted (`…_full_refuted`).
 -/
 import Gts.Lemmas.Cli
 import Gts.Lemmas.CliFeatures
@@ -1040,6 +1056,27 @@ theorem insert_host_features_residues_partial (loc : Seq → List Reg) (host gue
   apply List.map_congr_left
   intro p hp
   have := insert_residue_at loc false host guest hwh p.1 (hpos p hp).1 (hpos p hp).2
+  simp only [Function.comp, readAt, this]
+
+/-- **`gts infix`: every host feature reads, in the output and OUTSIDE the guest copies, the
+residues it read in the host** (`Expand` stretches a part spanning a head over the guest copy
+there; those additional residues are the copy's). -/
+theorem infix_host_features_residues_partial (loc : Seq → List Reg) (host guest : Seq) (f : Feature)
+    (hf : f ∈ host.feats) (hwh : ∀ h ∈ (loc host).map Reg.head, 0 ≤ h) (hw : f.loc.wf = true)
+    (hk2 : Cli.insAbs true guest.len (Cli.sortDesc ((loc host).map Reg.head)) f.loc = false)
+    (hnd : f.loc.den.Nodup) (hpos : ∀ p ∈ f.loc.den, 0 ≤ p.1 ∧ p.1 < host.len) :
+    ∃ f' ∈ (Cli.insert loc true host guest).feats, f'.key = f.key ∧ f'.props = f.props ∧
+      (Cli.stripGuests (Cli.copyStarts guest.len (Cli.sortDesc ((loc host).map Reg.head))) guest.len
+          f'.loc.den).map (readAt (Cli.insert loc true host guest).bytes) =
+        f.loc.den.map (readAt host.bytes) := by
+  obtain ⟨f', h1, h2, h3, h4⟩ := infix_host_features_partial loc host guest f hf hw hk2
+  refine ⟨f', h1, h2, h3, ?_⟩
+  rw [h4.eq_of_nodup (Cli.nodup_mapPos _ _ (multiInsMap_inj _ _ guest.len_nonneg) hnd)]
+  unfold mapPos
+  rw [List.map_map]
+  apply List.map_congr_left
+  intro p hp
+  have := insert_residue_at loc true host guest hwh p.1 (hpos p hp).1 (hpos p hp).2
   simp only [Function.comp, readAt, this]
 
 /-- **`gts insert`: every feature of every guest copy reads, in the output, the residues it read
